@@ -54,6 +54,11 @@ def jobs(tier):
                     if shape == "flat2" and q:
                         out.append((label + ".own", "job_recheck", dict(prop="C04", version=version, shape=shape, P=P, K=2,
                                                                        dmg=dmg, source="own")))
+    for version in (1, 2, 3):
+        for shape in ("selfname", "selfdir"):
+            for dmg in (["intact", "flip"], ["missing", "intact"], ["trunc", "intact"]):
+                out.append(("v%d.%s.P16384.%s.root" % (version, shape, "-".join(k[0] for k in dmg)), "job_recheck",
+                            dict(prop="C04", version=version, shape=shape, P=16384, K=1, dmg=dmg, source="ref", cpath="root")))
     return out
 
 
